@@ -9,11 +9,19 @@
       left operand;
   (c) a group evaluates to what its content evaluates to; the operator sets of the precedence
       levels are pairwise disjoint.
-  The parser half (the ladder inverts the flattening of every derivation tree) is in
-  `Pakhi/Props/C01Parse.lean` once closed; until then it is tied by the C01/C12 correspondence runs.
+  (a) the parser half, shape: `parsed_expressions_are_ladders` — every expression of every program the parser returns
+      sits on the precedence ladder `| < & < == != < < > <= >= < + - < * / % < unary ! - < call/index < primary`: under a
+      binary node of level k the left operand has level ≥ k (left associativity), the right operand level > k, the
+      operator belongs to level k; unary operators apply to operands tighter than every binary level; anything looser
+      occurs only inside parentheses, brackets, braces or argument lists.  (That the leaves of the tree are the tokens in
+      source order — the other half of "the tree the source denotes" — is tied by the C01 correspondence runs, which
+      compare the evaluation of generated trees, printed with minimal and with redundant parentheses, against the
+      Python tree oracle and the model; a `yield` theorem is not stated because commas in list / record literals are
+      optional, so the token sequence is not a function of the tree.)
 -/
 import Pakhi.Model.Interp
 import Pakhi.Model.Parser
+import Pakhi.Lemmas.Ladder
 namespace Pakhi
 namespace C01
 
@@ -103,5 +111,22 @@ theorem levelOps_disjoint : ∀ i, i < 6 → ∀ j, j < 6 → i ≠ j → ∀ op
 theorem eval_group (prog : List Stmt) (f : Nat) (cur : List Stmt) (e : Expr) (m : Meta) (s : St) :
     eval prog (f+1) cur (.group e m) s = eval prog f cur e s := by
   simp [eval]
+/-- **the parser respects precedence and associativity** (see the header, item (a)) -/
+theorem parsed_expressions_are_ladders (ctx : PCtx) (fuel : Nat) (toks : List Token) (prog : List Stmt)
+    (h : parse ctx fuel toks = .ok prog) : progLadder prog = true := parse_ladder ctx fuel toks prog h
+
+/-- what the ladder says at a `+`/`-` node: the left operand is `+ - * / %`-or-tighter, the right one `* / %`-or-tighter -/
+theorem ladder_addsub (op : TK) (l r : Expr) (m : Meta) (h : (Expr.addsub op l r m).ladder = true) :
+    4 ≤ l.level ∧ 5 ≤ r.level ∧ (op = .plus ∨ op = .minus) ∧ l.ladder = true ∧ r.ladder = true := by
+  simp only [Expr.ladder, Bool.and_eq_true, decide_eq_true_eq] at h
+  obtain ⟨⟨⟨⟨h1, h2⟩, h3⟩, h4⟩, h5⟩ := h
+  refine ⟨h3, h4, ?_, h1, h2⟩
+  simp [levelOps] at h5
+  rcases h5 with h5 | h5 <;> simp [h5]
+
+/-- non-vacuity: `1 + 2 * 3` as the parser builds it is a ladder, `(1 + 2) * 3` without its group node is not -/
+example : (Expr.addsub .plus (.num 0 default) (.muldiv .mul (.num 0 default) (.num 0 default) default) default).ladder = true := by decide
+example : (Expr.muldiv .mul (.addsub .plus (.num 0 default) (.num 0 default) default) (.num 0 default) default).ladder = false := by decide
+
 end C01
 end Pakhi
